@@ -4,7 +4,8 @@
     of a graph by a, its sizes by b and its rates by r; [evmap a] the times of the events `demes` reports. *)
 From Coq Require Import ZArith QArith Reals List Bool Arith Lra Lia Permutation.
 From Dadi Require Import Base.Num Base.NumR Base.NumQ Model.DemesFront
-     Proofs.DemesBase Proofs.DemesRescale Proofs.DemesUnits Proofs.DemesOrder Proofs.DemesExport Proofs.DemesPulse.
+     Proofs.DemesBase Proofs.DemesRescale Proofs.DemesUnits Proofs.DemesOrder Proofs.DemesExport Proofs.DemesPulse
+     Model.DemesExportModel Model.DemesExportReorderModel Proofs.DemesExportRoundTrip Proofs.DemesExportReorder.
 Import ListNotations.
 Local Open Scope R_scope.
 
@@ -210,3 +211,72 @@ Proof.
   - eexists. split; [left; reflexivity|]. split; reflexivity.
   - vm_compute. reflexivity.
 Qed.
+
+(** export_import_same_program.  The event log of a native program ([elog]: phi_1D, then rounds of at most one Split /
+    Pulse / Remove record followed by an Integration record) is exported by [export_model] - the model of
+    dadi.Demes.output giving the RESOLVED graph (the resolution of the Builder data by `demes` is an oracle; the model
+    is compared with the real output + demes on every run) - and re-imported by the importer model [front] with
+    Ne = Nref.  For every log of the class [log_ok] (1..5 populations; splits; admixed new populations; pulses;
+    removals; constant, linear and exponential sizes; any migration rates; consecutive integrations; every record
+    followed by an integration of positive duration), every Nref > 0 and every generation time, the re-imported
+    program is the sequence of calls that recorded the log ([native_calls]), argument by argument, every axis
+    labelled with the name the exporter generated for it, followed by the identity reorder_pops and from_phi. *)
+Theorem C16_export_import_same_program : forall (lg : elog R) N gt ns new_ids sizes,
+  log_ok lg -> 0 < N -> (forall k, gt = Some k -> 0 < k) ->
+  front std_wirings true gt (export_model N gt lg) (final_ids lg) None new_ids sizes (export_events N gt lg) (Some N) ns
+  = native_calls lg ++ [simple_call F_reorder_pops [] (seq 1 (length (final_ids lg))) [];
+                        simple_call F_from_phi [] ns (final_ids lg)].
+Proof. exact export_import_same_program. Qed.
+Print Assumptions C16_export_import_same_program.
+
+(** the stages: integrations only; + splits; + linear / exponential sizes; + migration; + admixed populations and
+    pulses; + removal.  [roundtrip lg] is the conclusion above for all N, gt, ns *)
+Theorem C16_export_import_stage1 : forall lg : elog R, log_ok lg -> Forall (fun r => r_ev r = SNone) (l_rounds lg) -> roundtrip lg.
+Proof. exact export_import_stage1. Qed.
+Theorem C16_export_import_stage2 : forall lg : elog R, log_ok lg -> log_stage 2 lg -> roundtrip lg.
+Proof. exact export_import_stage2. Qed.
+Theorem C16_export_import_stage3 : forall lg : elog R, log_ok lg -> log_stage 3 lg -> roundtrip lg.
+Proof. exact export_import_stage3. Qed.
+Theorem C16_export_import_stage4 : forall lg : elog R, log_ok lg -> log_stage 4 lg -> roundtrip lg.
+Proof. exact export_import_stage4. Qed.
+Theorem C16_export_import_stage5 : forall lg : elog R, log_ok lg -> log_stage 5 lg -> roundtrip lg.
+Proof. exact export_import_stage5. Qed.
+Theorem C16_export_import_stage6_partial : forall lg : elog R, log_ok lg -> log_stage 6 lg -> roundtrip lg.
+Proof. exact export_import_stage6_partial. Qed.
+Print Assumptions C16_export_import_stage6_partial.
+
+(** non-vacuity: one history per stage in the class and of that stage exactly; the same histories run on the rationals *)
+Example C16_export_stage_examples :
+  (log_ok (ex1 (F:=R)) /\ Forall (fun r => r_ev r = SNone) (l_rounds (ex1 (F:=R))))
+  /\ (log_ok (ex2 (F:=R)) /\ log_stage 2 (ex2 (F:=R)))
+  /\ (log_ok (ex3 (F:=R)) /\ log_stage 3 (ex3 (F:=R)) /\ ~ log_stage 2 (ex3 (F:=R)))
+  /\ (log_ok (ex4 (F:=R)) /\ log_stage 4 (ex4 (F:=R)) /\ ~ log_stage 3 (ex4 (F:=R)))
+  /\ (log_ok (ex5 (F:=R)) /\ log_stage 5 (ex5 (F:=R)) /\ ~ log_stage 4 (ex5 (F:=R)))
+  /\ (log_ok (ex6 (F:=R)) /\ log_stage 6 (ex6 (F:=R)) /\ ~ log_stage 5 (ex6 (F:=R))).
+Proof.
+  exact (conj export_import_stage1_example (conj export_import_stage2_example (conj export_import_stage3_example
+        (conj export_import_stage4_example (conj export_import_stage5_example export_import_stage6_example))))).
+Qed.
+
+(** export_import_reorder (stage 6, complete).  With reorder_pops records ([log_okr]: the class above plus Reorder
+    records carrying a permutation) the literal call sequence cannot come back: the graph does not record the order of
+    the axes, and the importer integrates the demes of a window in creation order.  What comes back is the native
+    program written with its populations in creation order, [sorted_calls]: every argument looked up by name, a
+    reorder_pops call where Demes.output starts a new era while the axes are out of creation order (the new names
+    follow the native order), and one at the end to the final order of the program. *)
+Theorem C16_export_import_reorder : forall (lg : elog R) N gt ns new_ids sizes,
+  log_okr lg -> 0 < N -> (forall k, gt = Some k -> 0 < k) ->
+  front std_wirings true gt (export_model N gt lg) (final_ids lg) None new_ids sizes (export_events N gt lg) (Some N) ns
+  = sorted_calls lg ++ [simple_call F_from_phi [] ns (final_ids lg)].
+Proof. exact export_import_reorder. Qed.
+Print Assumptions C16_export_import_reorder.
+
+(** without Reorder records the creation-order program is the native program followed by the identity reorder *)
+Theorem C16_sorted_calls_native : forall lg : elog R, log_ok lg ->
+  sorted_calls lg = native_calls lg ++ [simple_call F_reorder_pops [] (seq 1 (length (final_ids lg))) []].
+Proof. exact sorted_calls_native. Qed.
+
+(** non-vacuity: a history with reorder_pops followed by a new era (in [log_okr], not in [log_ok]); on the rationals the
+    importer model gives [sorted_calls] back and not the literal native call sequence *)
+Example C16_export_reorder_example : log_okr (ex7 (F:=R)) /\ ~ log_ok (ex7 (F:=R)).
+Proof. exact export_import_stage6_reorder_example. Qed.
